@@ -264,6 +264,11 @@ class ProgramVerifier:
                               {"why": f"{e.cls} escapes from serialize", "property": "C16"})
                 ex.oblige("mode-restored-on-raise", ex.obj(w).fields["_string_sanitization_mode"] == san0, f"{e.cls}@L{line}",
                           {"why": "sanitisation mode not restored when serialize raises", "property": "C15"})
+                if e.cls in ("SerializationError", "ValueError"):
+                    # the other direction of C02: a constructible VALID object is never refused
+                    _, valid_here = os_.wire_and_valid(san0)
+                    ex.oblige("accepts-valid", z3.Not(valid_here), f"{e.cls}@L{line}",
+                              {"why": f"serialize raises {e.cls} for an object that satisfies its declaration", "property": "C02"})
                 return
             wire, valid = os_.wire_and_valid(san0)
             ex.oblige("mode-restored", ex.obj(w).fields["_string_sanitization_mode"] == san0, "normal",
